@@ -354,6 +354,22 @@ func checkC13(c *core.Ctx) {
 			r3.Check(strings.Contains(lt, ".IHL") || strings.Contains(lt, "len("), key+"Length", p.Pos(build.Pos()), "Length = header length + payload length ("+lt+")", "the rebuilt datagram's Length is "+lt+", which does not include the header length: re-decoding the result truncates the payload")
 		}
 		r3.Check(m["Flags"] == "const:0" && m["FragOffset"] == "const:0", key+"fragmentation-cleared", p.Pos(build.Pos()), "Flags = 0, FragOffset = 0", "the rebuilt datagram still carries fragmentation fields")
+		// the header length counted in Length is that of the header actually copied (same source object)
+		baseOf := func(term, field string) string {
+			i := strings.Index(term, "."+field)
+			if i < 0 {
+				return ""
+			}
+			j := i
+			for j > 0 && !strings.ContainsRune("(,", rune(term[j-1])) {
+				j--
+			}
+			return term[j:i]
+		}
+		if lt, ok := m["Length"]; ok && strings.Contains(lt, ".IHL") && strings.HasSuffix(m["IHL"], ".IHL") {
+			bl, bi, bo := baseOf(lt, "IHL"), baseOf(m["IHL"], "IHL"), baseOf(m["Options"], "Options")
+			r3.Check(bl == bi && (bo == "" || bo == bi), key+"Length-same-header", p.Pos(build.Pos()), "Length counts the header that is copied ("+bi+")", "the rebuilt header takes IHL/Options from "+bi+" but Length counts the header length of "+bl+": when the fragments carry different options (options not copied on fragmentation) Length disagrees with IHL*4 + payload")
+		}
 		r3.Check(strings.HasSuffix(m["IHL"], ".IHL") && strings.HasSuffix(m["Options"], ".Options"), key+"header-copied", p.Pos(build.Pos()), "IHL and Options copied together", "IHL and Options of the rebuilt header are not both taken from the fragment")
 	}
 	// build loop branches
